@@ -107,8 +107,10 @@ type plan struct {
 	// table is altered, flushes are forced; every key has data in the file AND in the memstore,
 	// and the file sequences end between (clock at scan start - retention) and (new clock -
 	// retention).  Retention is 10 periods.
-	Env  bool
-	Note string
+	Env bool
+	// Multi: several complete scans with inserts (and no flush) between them, see multiscan.go
+	Multi *multiPlan
+	Note  string
 }
 
 func genVals(r *hk.Rng) map[string]interface{} {
@@ -134,6 +136,9 @@ var sqlForms = []string{
 }
 
 func genPlan(r *hk.Rng) *plan {
+	if r.Chance(1, 5) {
+		return genMultiPlan(r)
+	}
 	pl := &plan{S: dbk.GenSchema(r, "t"), Gates: map[int][]opT{}}
 	fixSchema(pl.S)
 	if r.Chance(1, 4) {
@@ -270,6 +275,8 @@ func handMade(i int) *plan {
 		pl.Note = "a complete scan while a flush is held between writing the new file and swapping it in"
 		pl.FlushHeld = true
 		pl.Pre = []opT{in(0, 0, 1, 2), in(1, 0, 16, 32), {Kind: "flush"}, in(0, 1, 64, 128), in(2, 0, 256, 512)}
+	case 9:
+		return handMadeMulti()
 	case 7:
 		pl.Note = "environment: after the first row a much later point for ANOTHER key moves the clock past the retention boundary of the file data of the keys not yet delivered (a per-row truncateBefore drops it)"
 		pl.Env = true
@@ -687,9 +694,15 @@ func (Engine) Run(ctx *hk.RunCtx) error {
 			}
 			// infrastructure trouble: retry once on a fresh directory, then inconclusive
 			var retry bool
-			retry, err = oneCase(ctx, r, idx, pl, known)
+			run := oneCase
+			if pl.Multi != nil {
+				run = func(ctx *hk.RunCtx, r *hk.Rng, idx uint64, pl *plan, _ map[string]bool) (bool, error) {
+					return multiCase(ctx, r, idx, pl)
+				}
+			}
+			retry, err = run(ctx, r, idx, pl, known)
 			if retry && err == nil {
-				retry, err = oneCase(ctx, hk.Derive(ctx.Seed, idx), idx, pl, known)
+				retry, err = run(ctx, hk.Derive(ctx.Seed, idx), idx, pl, known)
 				if retry && err == nil {
 					ctx.Res.Inconclusive++
 				}
